@@ -218,9 +218,10 @@ def release_pass(c, L):
     if len(ev) != 1 or ev[0][0] != 'release':
         return z3.BoolVal(False)
     n = z3.Int('self.descendants.len')
-    # the loop runs over reversed(descendants): pass i-1 handles element n-1-(i-1)
-    want = 'desc[%s]' % str(z3.simplify(n - 1 - (L.i - 1))).replace(' ', '')
-    ok = ev[0][1].oid == want and len(ev[0][2]) == 1 and ev[0][2][0].k == 'ref' and ev[0][2][0].oid == 'self'
+    # every descendant once (the loop walks the sorted list backwards; forwards would only give another valid order)
+    wants = ('desc[%s]' % str(z3.simplify(n - 1 - (L.i - 1))).replace(' ', ''),
+             'desc[%s]' % str(z3.simplify(L.i - 1)).replace(' ', ''))
+    ok = ev[0][1].oid in wants and len(ev[0][2]) == 1 and ev[0][2][0].k == 'ref' and ev[0][2][0].oid == 'self'
     return z3.BoolVal(bool(ok))
 
 
@@ -363,13 +364,14 @@ def phase_inv(ordinal, what):
             return z3.BoolVal(True)
         ev = [e for e in ev if e[0] in ('reset', 'child', 'available-reset')]
         n = z3.Int('children.len')
-        idx = (L.i - 1) if ordinal != 2 else (n - 1 - (L.i - 1))               # the third loop runs last to first
-        want = child_tag(c, idx)
+        # every unit once: position i-1 of the table, or - the table walked backwards - position n-i
+        # (which of the two orders is used only decides WHICH valid order the sort produces)
+        wants = (child_tag(c, L.i - 1), child_tag(c, n - 1 - (L.i - 1)))
         if what == 'reset':
-            ok = (len(ev) == 2 and all(e[0] == 'reset' and e[1] == want and e[3] for e in ev)
-                  and {e[2] for e in ev} == {'_antecedents', '_descendants'})
+            ok = (len(ev) == 2 and all(e[0] == 'reset' and e[1] == ev[0][1] and e[3] for e in ev)
+                  and ev[0][1] in wants and {e[2] for e in ev} == {'_antecedents', '_descendants'})
         else:
-            ok = len(ev) == 1 and ev[0][0] == 'child' and ev[0][1] == what and ev[0][2] == want
+            ok = len(ev) == 1 and ev[0][0] == 'child' and ev[0][1] == what and ev[0][2] in wants
         return z3.BoolVal(bool(ok))
     return inv
 
@@ -387,7 +389,7 @@ def sd_init_post(c):
 
 
 contract(FS, 'SynthDef._init_topo_sort', props=('C02',), params={'self': 'self'},
-         ensures=[('empty-stack;then-all-sets-reset;then-all-edges;then-availability-last-to-first', sd_init_post)],
+         ensures=[('empty-stack;then-all-sets-reset;then-all-edges;then-availability', sd_init_post)],
          loops={0: Loop(inv=phase_inv(0, 'reset'), kinds={'ugen': (lambda eng, n: V('obj', oid='havoc'))}),
                 1: Loop(inv=phase_inv(1, '_init_topo_sort'), kinds={'ugen': (lambda eng, n: V('obj', oid='havoc'))}),
                 2: Loop(inv=phase_inv(2, '_make_available'), kinds={'ugen': (lambda eng, n: V('obj', oid='havoc'))})},
